@@ -494,17 +494,17 @@ pub(crate) fn remove_smallest_matching_prefix<'a>(
 ) -> Result<&'a str, error::Error> {
     if let Some(pattern) = pattern {
         let re = pattern.to_regex(true, true)?;
-        let mut indices = s.char_indices();
+        // Consider every prefix, from the empty one up to the whole string.
+        let indices = s.char_indices().map(|(idx, _)| idx).chain([s.len()]);
 
         #[allow(
             clippy::string_slice,
             reason = "because we get the indices from char_indices()"
         )]
-        while indices.next().is_some() {
-            let next_index = indices.offset();
-            let prefix = &s[0..next_index];
+        for idx in indices {
+            let prefix = &s[0..idx];
             if re.is_match(prefix)? {
-                return Ok(&s[next_index..]);
+                return Ok(&s[idx..]);
             }
         }
     }
